@@ -99,7 +99,11 @@ class Canonicalizer:
                 return numerator
             if numerator == denominator:
                 return One()
-            return numerator / denominator  # TODO
+            quotient = numerator / denominator
+            # dividing a fraction by a fraction multiplies across, after which the two sides can coincide
+            if isinstance(quotient, Fraction) and quotient.numerator == quotient.denominator:
+                return One()
+            return quotient
         elif isinstance(expression, One | Zero):
             return expression
         else:
